@@ -31,9 +31,9 @@ LEVEL['C15'] = 'fault_enumeration'
 # (runs, wall budget seconds) per tier; the batch stops at whichever comes
 # first.  Quick is sized for ~60-90 s on 16 cores.
 BUDGET = {
-    'quick': dict(runs=6000, wall=55, alt_hash=200, determinism=150,
+    'quick': dict(runs=30000, wall=45, alt_hash=150, determinism=100,
                   minimise_s=20, max_report=4),
-    'thorough': dict(runs=150000, wall=720, alt_hash=3000, determinism=1500,
+    'thorough': dict(runs=2000000, wall=900, alt_hash=3000, determinism=1500,
                      minimise_s=90, max_report=8),
 }
 
@@ -208,9 +208,15 @@ def _worker(args):
             break
         try:
             out.append(run_isolated(_summ, (prop, seed, r)))
-            if EARLY_STOP and any(prop in v['props']
-                                  for v in out[-1].get('viol', [])):
-                _STOP.set()
+            if EARLY_STOP:
+                hits = [v for v in out[-1].get('viol', [])
+                        if prop in v['props']]
+                if hits:
+                    kl = load_known()
+                    case = gen_case(prop, seed, r)
+                    if any(known.classify(prop, v, case, kl) is None
+                           for v in hits):
+                        _STOP.set()
         except _RunTimeout:
             out.append({'run': r, 'timeout': True})
     return out
@@ -400,7 +406,7 @@ def check(prop, tier, seed):
                (d['trace_digest'] != by_run[d['run']]['trace_digest'] or
                 d['result_digest'] != by_run[d['run']]['result_digest'])]
     # ---- alternate hash seed pass (C10 (c) and determinism) ----------------
-    alt_runs = [r['run'] for r in ok[:b['alt_hash']]]
+    alt_runs = [r['run'] for r in ok[:b['alt_hash'] * (3 if prop == 'C10' else 1)]]
     alt = alt_hash_digests(prop, seed, alt_runs, 4242) if alt_runs else {}
     alt_trace_bad = [r for r in alt_runs if r in alt and
                      alt[r][0] != by_run[r]['trace_digest']]
